@@ -739,8 +739,8 @@ int scpiLex_ArbitraryBlockProgramData(lex_state_t * state, scpi_token_t * token)
             }
 
             if (i == 0) {
-                state->pos += arbitraryBlockLength;
-                if ((state->buffer + state->len) >= (state->pos)) {
+                if (((state->buffer + state->len) - state->pos) >= arbitraryBlockLength) {
+                    state->pos += arbitraryBlockLength;
                     token->ptr = state->pos - arbitraryBlockLength;
                     token->len = arbitraryBlockLength;
                     validData = 1;
